@@ -3,6 +3,7 @@ package main
 // Function translation: SSA CFG -> reachability-predicate VC (DESIGN A.1, A.2).
 
 import (
+	"time"
 	"fmt"
 	"math/big"
 	"go/ast"
@@ -60,6 +61,7 @@ type deferred struct {
 }
 
 type FnTr struct {
+	genDeadline time.Time // refute mode: VC generation is abandoned after this instant
 	eng     *Eng
 	vc      *VC
 	fn      *ssa.Function
@@ -86,6 +88,7 @@ type FnTr struct {
 	lockDepth map[string]*Term
 	curInstr ssa.Instruction
 	typedObjs []typedObj
+	typedPtrs []typedObj
 	lockSites [][2]*Term // mutex addresses locked/unlocked somewhere in the function
 	fnFrame  []cellRange // declared modifies of the top-level function, evaluated at entry
 	storeChecks bool     // recovering function with a frame: every write is checked against it
@@ -547,6 +550,9 @@ func (tr *FnTr) vname(v ssa.Value) string {
 }
 
 func (tr *FnTr) procBlock(b *ssa.BasicBlock) {
+	if d := tr.top.genDeadline; !d.IsZero() && time.Now().After(d) {
+		panic(unsupported("bounded search: VC generation exceeded its time box"))
+	}
 	st, phis, ok := tr.mergeEdges(b, tr.in[b])
 	if !ok {
 		return
@@ -711,13 +717,16 @@ func (tr *FnTr) procLoop(l *Loop) {
 	// 2. havoc
 	hst := State{Reach: est.Reach, Locks: est.Locks, Ghost: est.Ghost}
 	writes, allocs := tr.loopEffects(l)
+	modAny := l.ct != nil && l.ct.ModAny
+	if modAny {
+		writes, allocs = true, true
+	}
 	if writes {
 		// ghost buffers may be appended to in the loop: nothing is kept about them
 		hst.Ghost = tr.vc.Fresh("ghost_"+fmt.Sprintf("loop%d", l.Ordinal), SMem)
 		// ...except its kind (hash algorithm), which never changes, and that lengths are >= 0
 		o := Sym("o!q", SInt)
-		tr.vc.Assume(Forall([]*Term{o}, And(Eq(Select(Select(hst.Ghost, o), Int(-2)), Select(Select(est.Ghost, o), Int(-2))),
-			Le(Int(0), Select(Select(hst.Ghost, o), Int(-1)))), Select(hst.Ghost, o)))
+		tr.vc.Assume(Forall([]*Term{o}, Le(Int(0), Select(Select(hst.Ghost, o), Int(-1))), Select(hst.Ghost, o)))
 	}
 	if !writes && !allocs {
 		hst.Mem, hst.Alloc = est.Mem, est.Alloc
@@ -728,7 +737,17 @@ func (tr *FnTr) procLoop(l *Loop) {
 			tr.vc.Assume(Le(est.Alloc, hst.Alloc))
 			curEpoch++
 		}
-		hst.Mem = tr.havocMem(est.Mem, est.Alloc, fr.frame, allocs, lname)
+		if modAny {
+			hst.Mem = tr.vc.Fresh("mem_"+lname, SMem)
+		} else {
+			hst.Mem = tr.havocMem(est.Mem, est.Alloc, fr.frame, allocs, lname)
+		}
+	}
+	if modAny {
+		save := tr.st
+		tr.st = hst
+		tr.assumeDataInv()
+		tr.st = save
 	}
 	for i, p := range phiInstrs {
 		v := tr.freshVal(tr.vname(p)+"_h", p.Type(), hst.Alloc)
@@ -792,7 +811,7 @@ func (tr *FnTr) procLoop(l *Loop) {
 			d := ctx.intTerm(l.ct.Decreases.E)
 			tr.vc.Oblige(tr.prefix+"variant."+lname, strings.TrimPrefix(suffix, "@"), Implies(e.St.Reach, And(Le(Int(0), decHdr), Lt(d, decHdr))), l.ct.Decreases.Pos)
 		}
-		if writes {
+		if writes && !modAny {
 			tr.frameObligation(tr.prefix+"frame", lname+suffix, e.St, hst.Mem, est.Alloc, fr.frame)
 		}
 		tr.lockBalance(tr.prefix+"lockbalance", lname+suffix, e.St, hst.Locks)
@@ -997,6 +1016,7 @@ func typeContains(G, T types.Type, depth int) bool {
 type typedObj struct {
 	obj  *Term
 	elem types.Type
+	off  *Term // cell offset of the referenced value (pointers only)
 }
 
 // refElem: the element type a reference leaf at index i of v points to.
@@ -1047,7 +1067,7 @@ func (tr *FnTr) globalSeparation(obj *Term, elem types.Type) {
 		return
 	}
 	top := tr.top
-	top.typedObjs = append(top.typedObjs, typedObj{obj, elem})
+	top.typedObjs = append(top.typedObjs, typedObj{obj: obj, elem: elem})
 	var cs []*Term
 	for g, id := range tr.eng.globals {
 		gt := g.Type().Underlying().(*types.Pointer).Elem()
@@ -1082,11 +1102,47 @@ func (tr *FnTr) globalSepFacts(v Val) *Term {
 	return And(cs...)
 }
 
+// ptrSeparation: values of types A and B, neither of which holds the other inline, occupy
+// disjoint cells (Go type safety). Stated for a new pointer against the pointers typed so
+// far in this function.
+func (tr *FnTr) ptrSeparation(obj, off *Term, elem types.Type) {
+	if obj.IntConst() != nil || elem == nil {
+		return
+	}
+	top := tr.top
+	sz := sizeOf(elem)
+	var cs []*Term
+	n := 0
+	for k := len(top.typedPtrs) - 1; k >= 0 && n < 16; k-- {
+		p := top.typedPtrs[k]
+		if p.obj.Key() == obj.Key() && p.off.Key() == off.Key() {
+			continue
+		}
+		if typeContains(p.elem, elem, 0) || typeContains(elem, p.elem, 0) {
+			continue
+		}
+		n++
+		psz := sizeOf(p.elem)
+		cs = append(cs, Or(Ne(obj, p.obj), Le(Add(off, Int(int64(sz))), p.off), Le(Add(p.off, Int(int64(psz))), off)))
+	}
+	if len(cs) > 0 {
+		tr.vc.Assume(And(cs...))
+	}
+	top.typedPtrs = append(top.typedPtrs, typedObj{obj: obj, elem: elem, off: off})
+}
+
 func (tr *FnTr) assumeTyped(v Val, alloc *Term) {
 	lay0 := layoutOf(v.T)
 	for i, lf := range lay0.Leaves {
 		if lf.K == LObj && !lf.Str && alloc != nil {
-			tr.globalSeparation(v.L[i], refElem(v.T, lay0, i))
+			el := refElem(v.T, lay0, i)
+			tr.globalSeparation(v.L[i], el)
+			// pointers (not slices): the pointee occupies [off, off+size)
+			if i+1 < len(lay0.Leaves) && lay0.Leaves[i+1].K == LOff && !(i+2 < len(lay0.Leaves) && lay0.Leaves[i+2].K == LLen) {
+				if _, isStruct := el.Underlying().(*types.Struct); isStruct {
+					tr.ptrSeparation(v.L[i], v.L[i+1], el)
+				}
+			}
 		}
 	}
 	tr.vc.Assume(typingFacts(v, alloc))
